@@ -2,7 +2,7 @@
    Only the property theorems live here: each is closed by a lemma of Proofs/Pn.v or
    Proofs/SentJournal.v, and its assumptions are printed for the audit. *)
 From Coq Require Import List ZArith Bool Sorted.
-From GQ Require Import Model.Pn Model.SentJournal Proofs.Pn Proofs.SentJournal.
+From GQ Require Import Model.Pn Model.SentJournal Model.TxPn Proofs.Pn Proofs.SentJournal Proofs.TxPn.
 Import ListNotations.
 Local Open Scope Z_scope.
 
@@ -72,6 +72,45 @@ Theorem c07_decode_unreduced_u24 :
   /\ encode 67108865 67068865 = EncOk (U24 1).
 Proof. exact p_c07_decode_unreduced_u24. Qed.
 
+(* ---- the packet writers of qconnection/src/tx.rs (Model/TxPn.v, stream `txpn`) ----
+   [tx_script] is what one life of tx::PacketWriter ([trivw] = false) or tx::TrivialPacketWriter
+   ([trivw] = true) does to its NewPacketGuard, for every packet type, buffer size and list of
+   frames offered through the Package impls.  The discipline that c07_unique takes as a hypothesis
+   holds for both writers; a packet finished by TrivialPacketWriter always satisfies the two
+   assertions of build_trivial. *)
+Theorem c07_tx_discipline : forall trivw ty bufsz retran expire fr w sc,
+  tx_script trivw ty bufsz retran expire fr w = Some sc ->
+  disciplined sc /\
+  (np_mode_ sc = NpBuildTrivial -> trivw = true /\ np_frames sc = [] /\ np_trivial sc = true) /\
+  (trivw = true -> np_mode_ sc <> NpBuildTime).
+Proof. exact p_c07_tx_discipline. Qed.
+
+(* every interleaving of lives of the two writers and SentRotateGuard calls on one journal: the
+   numbers of the packets that left either writer are strictly increasing — no hypothesis *)
+Theorem c07_tx_unique : forall h, StronglySorted Z.lt (tx_emitted sj_new [] h).
+Proof. exact p_c07_tx_unique. Qed.
+
+(* the "sent pn" observation of stream txpn is such an emitted packet; its number is the journal's
+   next one and the journal has booked it afterwards *)
+Theorem c07_tx_life_sent : forall trivw pad j now ty bufsz retran expire fr j' pn rest,
+  tx_life trivw pad j now ty bufsz retran expire fr = (Some j', 0 :: pn :: rest) ->
+  exists sc, tx_sev j (TxWriter now trivw ty bufsz retran expire fr) = Some (EvNew now sc) /\
+    is_built sc = true /\ pn = s_next j /\ s_next j' = pn + 1.
+Proof. exact p_c07_tx_life_sent. Qed.
+
+(* non-vacuity: regular packet, punch packet, abandoned assembly (buffer too small), regular
+   ack-only packet, two CONNECTION_CLOSE packets, an acknowledgement in between: 0,1,2,3,4 *)
+Example c07_tx_nonvacuous :
+  tx_emitted sj_new []
+    [TxWriter 0 false 3 1200 100 300 [(1, 4096)];
+     TxWriter 0 true 3 1200 0 0 [(5, 0)];
+     TxWriter 1 false 3 20 100 300 [(1, 4097)];
+     TxRotate (EvLargest 1); TxRotate (EvAcked 0); TxRotate (EvResize 1);
+     TxWriter 2 false 3 1200 100 300 [(6, 0)];
+     TxWriter 3 true 3 1200 0 0 [(4, 0)];
+     TxWriter 3 true 3 1200 0 0 [(4, 0)]] = [0; 1; 2; 3; 4].
+Proof. vm_compute. reflexivity. Qed.
+
 (* non-vacuity: a history with a multi-frame packet, a trivial packet, abandoned guards,
    out-of-order acknowledgements, loss and a resize emits 0,1,2,3; and concrete boundary triples *)
 Example c07_nonvacuous :
@@ -103,4 +142,8 @@ Print Assumptions c07_encode_total.
 Print Assumptions c07_encode_limit.
 Print Assumptions c07_decode_direct.
 Print Assumptions c07_decode_unreduced_u24.
+Print Assumptions c07_tx_discipline.
+Print Assumptions c07_tx_unique.
+Print Assumptions c07_tx_life_sent.
+Print Assumptions c07_tx_nonvacuous.
 Print Assumptions c07_nonvacuous.
